@@ -243,6 +243,10 @@ pub enum Stmt {
     AddColumn { table: String, col: ColDef },
     DropColumn { table: String, col: usize },
     /// Arbitrary text the model expects to fail without effect.
+    /// ALTER TABLE t ALTER COLUMN c {SET DEFAULT v | DROP DEFAULT | SET NOT NULL | DROP NOT NULL}
+    AlterCol { table: String, col: usize, change: ColChange },
+    /// a statement that succeeds without any effect (CREATE TABLE IF NOT EXISTS on an existing table)
+    NoOpDdl { sql: String },
     Bad { sql: String, why: String },
 }
 
@@ -262,9 +266,18 @@ pub enum MOut {
     Err(ErrClass, String),
 }
 
+#[derive(Clone, Debug, PartialEq, Serialize, Deserialize)]
+pub enum ColChange {
+    SetDefault(Val),
+    DropDefault,
+    SetNotNull,
+    DropNotNull,
+}
+
 /// Row-level effect of a successful statement, re-playable on another state (SI commit).
 #[derive(Clone, Debug, PartialEq, Serialize, Deserialize)]
 pub enum Effect {
+    AlterCol { table: String, col: usize, change: ColChange },
     Create(TableDef),
     Drop(String),
     AddUnique { table: String, cols: Vec<usize>, name: String },
@@ -290,6 +303,16 @@ impl State {
                         t.def.uniques.push(cols.clone());
                     }
                     t.def.index_names.push(name.clone());
+                }
+            }
+            Effect::AlterCol { table, col, change } => {
+                if let Some(c) = self.tables.get_mut(table).and_then(|t| t.def.cols.get_mut(*col)) {
+                    match change {
+                        ColChange::SetDefault(v) => c.default = Some(v.clone()),
+                        ColChange::DropDefault => c.default = None,
+                        ColChange::SetNotNull => c.not_null = true,
+                        ColChange::DropNotNull => c.not_null = false,
+                    }
                 }
             }
             Effect::AddColumn { table, col } => {
@@ -415,6 +438,16 @@ pub fn stmt_sql(s: &Stmt, view: &State) -> String {
             col.default.as_ref().map(|d| format!(" DEFAULT {}", d.sql())).unwrap_or_default()
         ),
         Stmt::DropColumn { table, col } => format!("ALTER TABLE {table} DROP COLUMN {}", def_of(table).cols.get(*col).map(|c| c.name.clone()).unwrap_or_else(|| format!("c{col}"))),
+        Stmt::AlterCol { table, col, change } => {
+            let cn = def_of(table).cols.get(*col).map(|c| c.name.clone()).unwrap_or_else(|| format!("c{col}"));
+            format!("ALTER TABLE {table} ALTER COLUMN {cn} {}", match change {
+                ColChange::SetDefault(v) => format!("SET DEFAULT {}", v.sql()),
+                ColChange::DropDefault => "DROP DEFAULT".to_string(),
+                ColChange::SetNotNull => "SET NOT NULL".to_string(),
+                ColChange::DropNotNull => "DROP NOT NULL".to_string(),
+            })
+        }
+        Stmt::NoOpDdl { sql } => sql.clone(),
         Stmt::Bad { sql, .. } => sql.clone(),
     }
 }
@@ -616,6 +649,16 @@ pub fn exec_model(view: &mut State, next_row_id: &mut u64, s: &Stmt) -> (MOut, V
                 }
             }
         },
+        Stmt::AlterCol { table, col, change } => match view.tables.get(table) {
+            None => MOut::Err(ErrClass::UnknownObject, format!("no table {table}")),
+            Some(t) if *col >= t.def.cols.len() => MOut::Err(ErrClass::Other, "unknown column".into()),
+            Some(t) if *change == ColChange::SetNotNull && t.rows.values().any(|r| r[*col].is_null()) => MOut::Err(ErrClass::Constraint, format!("column {col} holds a NULL")),
+            Some(_) => {
+                effects.push(Effect::AlterCol { table: table.clone(), col: *col, change: change.clone() });
+                MOut::Ddl
+            }
+        },
+        Stmt::NoOpDdl { .. } => MOut::Ddl,
         Stmt::Bad { why, .. } => MOut::Err(ErrClass::Other, why.clone()),
     };
     for e in &effects {
